@@ -779,6 +779,12 @@ fn decompress_udp(
     *decompressed_len += udp_repr.0.header_len() + payload.len();
     let mut udp = UdpPacket::new_unchecked(&mut buffer[..payload.len() + 8]);
     udp_repr.0.emit_header(&mut udp, udp_payload_len);
+    // Restore the checksum carried in-line in the compressed header, so that it is
+    // verified once the whole datagram is available. (`emit_header` leaves it zero,
+    // which is what an elided checksum is turned into.)
+    if let Some(checksum) = udp_packet.checksum() {
+        udp.set_checksum(checksum);
+    }
     buffer[8..][..payload.len()].copy_from_slice(payload);
     Ok(())
 }
